@@ -1276,6 +1276,134 @@ def unroll_literal_loops(fn: ast.FunctionDef, ref_fn: dict, known) -> None:
             return unroll_literal_loops(fn, ref_fn, known)
 
 
+def split_conditional_update(fn: ast.FunctionDef, ref_fn: dict, known) -> None:
+    """`t = C` / `if c: ...; t op= E; ...` / `S(t)` with t a fresh local used nowhere else, C a literal, E without calls over names
+    that the rest of the branch does not write: the using statement is specialised per branch --
+    `if c: ...; S(C op E)` / `else: S(C)`."""
+    ref_lines = {l.strip() for l in ref_fn.get("src", "").splitlines()}
+    for _owner, _fld, blk in blocks_of(fn):
+        for i in range(len(blk) - 2):
+            a, b, c = blk[i], blk[i + 1], blk[i + 2]
+            if not (isinstance(a, ast.Assign) and len(a.targets) == 1 and isinstance(a.targets[0], ast.Name) and isinstance(a.value, ast.Constant)
+                    and isinstance(b, ast.If) and not b.orelse and isinstance(c, (ast.Assign, ast.Expr, ast.Return))):
+                continue
+            t = a.targets[0].id
+            if t in known or _u(c).splitlines()[0].strip() in ref_lines:
+                continue
+            ups = [(k, st) for k, st in enumerate(b.body) if isinstance(st, (ast.AugAssign, ast.Assign)) and
+                   ((isinstance(st, ast.AugAssign) and isinstance(st.target, ast.Name) and st.target.id == t) or
+                    (isinstance(st, ast.Assign) and len(st.targets) == 1 and isinstance(st.targets[0], ast.Name) and st.targets[0].id == t))]
+            if len(ups) != 1:
+                continue
+            k, up = ups[0]
+            occ = [n for n in ast.walk(fn) if isinstance(n, ast.Name) and n.id == t]
+            allowed = {id(n) for n in ast.walk(a)} | {id(n) for n in ast.walk(up)} | {id(n) for n in ast.walk(c)}
+            if not all(id(n) in allowed for n in occ) or any(isinstance(n, ast.Name) and n.id == t for n in ast.walk(b.test)):
+                continue
+            if any(isinstance(n, ast.Name) and n.id == t and isinstance(n.ctx, ast.Store) for n in ast.walk(c)):
+                continue
+            e = up.value
+            if any(isinstance(n, (ast.Call, ast.NamedExpr, ast.Await, ast.Yield)) for n in ast.walk(e)):
+                continue
+            enames = {n.id for n in ast.walk(e) if isinstance(n, ast.Name)} - {t}
+            if any(isinstance(n, ast.Name) and n.id in enames and isinstance(n.ctx, (ast.Store, ast.Del)) for st in b.body[k + 1:] for n in ast.walk(st)):
+                continue
+            if any(isinstance(n, (ast.Attribute, ast.Subscript)) for n in ast.walk(e)):
+                continue
+            if always_exits(b.body):
+                continue
+            new_val = ast.BinOp(left=copy.deepcopy(a.value), op=up.op, right=copy.deepcopy(e)) if isinstance(up, ast.AugAssign) else copy.deepcopy(e)
+
+            def spec(stmt, val):
+                s2 = copy.deepcopy(stmt)
+                for parent in ast.walk(s2):
+                    for fld, v in ast.iter_fields(parent):
+                        if isinstance(v, ast.Name) and v.id == t and isinstance(v.ctx, ast.Load):
+                            setattr(parent, fld, copy.deepcopy(val))
+                        elif isinstance(v, list):
+                            for j, w in enumerate(v):
+                                if isinstance(w, ast.Name) and w.id == t and isinstance(w.ctx, ast.Load):
+                                    v[j] = copy.deepcopy(val)
+                return s2
+            b.body = [st for st in b.body if st is not up] + [spec(c, new_val)]
+            b.orelse = [spec(c, a.value)]
+            del blk[i + 2]
+            del blk[i]
+            ast.fix_missing_locations(fn)
+            return split_conditional_update(fn, ref_fn, known)
+
+
+def range_loops_to_while(fn: ast.FunctionDef, ref_fn: dict) -> None:
+    """`for v in range(N): BODY` -> `v = 0` / `while v < N: BODY; v += 1`, and `for v in reversed(range(N))` (or range(N - 1, -1, -1))
+    -> `v = N` / `while v > 0: v -= 1; BODY`, where the reference function counts with a while loop of that form (`while x < N:` with
+    `x += 1`, `while x > 0:` with `x -= 1`).  The body must not assign v; counting up it must not `continue`, and v must not be read
+    after the loop (it ends one higher)."""
+    import re as _re
+    ref_lines = [l.strip() for l in ref_fn.get("src", "").splitlines()]
+    has_up = any(_re.fullmatch(r"while [A-Za-z_]\w* < .+:", l) for l in ref_lines) and any(_re.fullmatch(r"[A-Za-z_]\w* \+= 1", l) for l in ref_lines)
+    has_down = any(_re.fullmatch(r"while [A-Za-z_]\w* > 0:", l) for l in ref_lines) and any(_re.fullmatch(r"[A-Za-z_]\w* -= 1", l) for l in ref_lines)
+    if not (has_up or has_down):
+        return
+
+    def has_continue(stmts):
+        for s_ in stmts:
+            if isinstance(s_, ast.Continue):
+                return True
+            if isinstance(s_, (ast.For, ast.While, ast.FunctionDef)):
+                continue
+            for fld in ("body", "orelse", "finalbody"):
+                if has_continue(getattr(s_, fld, []) or []):
+                    return True
+            for h in getattr(s_, "handlers", []) or []:
+                if has_continue(h.body):
+                    return True
+        return False
+    for _owner, _fld, blk in blocks_of(fn):
+        for i, st in enumerate(blk):
+            if not (isinstance(st, ast.For) and not st.orelse and isinstance(st.target, ast.Name) and isinstance(st.iter, ast.Call)):
+                continue
+            v = st.target.id
+            body_nodes = [n for b in st.body for n in ast.walk(b)]
+            if any(isinstance(n, ast.Name) and n.id == v and isinstance(n.ctx, (ast.Store, ast.Del)) for n in body_nodes):
+                continue
+            it = st.iter
+            up_n = down_n = None
+            if _u(it.func) == "range" and not it.keywords:
+                if len(it.args) == 1:
+                    up_n = it.args[0]
+                elif len(it.args) == 2 and isinstance(it.args[0], ast.Constant) and it.args[0].value == 0:
+                    up_n = it.args[1]
+                elif len(it.args) == 3 and all(isinstance(a, (ast.Constant, ast.UnaryOp)) for a in it.args[1:]) and _u(it.args[1]) == "-1" and _u(it.args[2]) == "-1":
+                    # range(N - 1, -1, -1)
+                    a0 = it.args[0]
+                    if isinstance(a0, ast.Constant) and isinstance(a0.value, int):
+                        down_n = ast.Constant(value=a0.value + 1)
+                    elif isinstance(a0, ast.BinOp) and isinstance(a0.op, ast.Sub) and isinstance(a0.right, ast.Constant) and a0.right.value == 1:
+                        down_n = a0.left
+            elif _u(it.func) == "reversed" and len(it.args) == 1 and isinstance(it.args[0], ast.Call) and _u(it.args[0].func) == "range" and len(it.args[0].args) == 1:
+                down_n = it.args[0].args[0]
+            if up_n is not None and has_up:
+                if has_continue(st.body):
+                    continue
+                if any(isinstance(n, ast.Name) and n.id == v and isinstance(n.ctx, ast.Load) for later in blk[i + 1:] for n in ast.walk(later)):
+                    continue
+                if any(isinstance(n, ast.Call) for n in ast.walk(up_n)):
+                    continue
+                loop = ast.While(test=ast.Compare(left=ast.Name(id=v, ctx=ast.Load()), ops=[ast.Lt()], comparators=[up_n]),
+                                 body=st.body + [ast.AugAssign(target=ast.Name(id=v, ctx=ast.Store()), op=ast.Add(), value=ast.Constant(value=1))], orelse=[])
+                blk[i:i + 1] = [ast.copy_location(ast.Assign(targets=[ast.Name(id=v, ctx=ast.Store())], value=ast.Constant(value=0)), st), ast.copy_location(loop, st)]
+            elif down_n is not None and has_down:
+                if any(isinstance(n, ast.Call) for n in ast.walk(down_n)):
+                    continue
+                loop = ast.While(test=ast.Compare(left=ast.Name(id=v, ctx=ast.Load()), ops=[ast.Gt()], comparators=[ast.Constant(value=0)]),
+                                 body=[ast.AugAssign(target=ast.Name(id=v, ctx=ast.Store()), op=ast.Sub(), value=ast.Constant(value=1))] + st.body, orelse=[])
+                blk[i:i + 1] = [ast.copy_location(ast.Assign(targets=[ast.Name(id=v, ctx=ast.Store())], value=down_n), st), ast.copy_location(loop, st)]
+            else:
+                continue
+            ast.fix_missing_locations(fn)
+            return range_loops_to_while(fn, ref_fn)
+
+
 def thread_none_flag(fn: ast.FunctionDef, known) -> None:
     """`if A: t = None else: t = E` directly followed by `if t is None: X` with X leaving the function and E a value that is
     never None (arithmetic, len(), a non-None literal): the flag variable is threaded away -- `if A: X`, then `t = E` and the rest."""
